@@ -260,6 +260,12 @@ def check(prop: str, tier: str) -> int:
         if missing and not refuted and not errored:
             harness_errors.append(f"{h.key}: required cover labels never hit: {missing}")
 
+    if os.environ.get("VERIF_SURVEY"):
+        for k, clause in sorted(known_hits.items()):
+            name, sig = k.split("|", 1)
+            print(f"SURVEY: known: property={prop} harness={name} sig={sig} :: {clause}")
+        print("survey mode: no verdict")
+        return 2
     for k, clause in sorted(known_hits.items()):
         name, sig = k.split("|", 1)
         what = kf.describe(prop, name, sig) or clause
